@@ -17,10 +17,10 @@ func init() {
 }
 
 func runC08(c *Ctx) {
-	c.Rule("R08a", "every store to Scanner.pos / Scanner.total / Scanner.input has one of the shapes that preserve total == len(src)-len(input)+pos (addPos, pick save/restore, input=input[pos:]+pos=0, skipSpaces, init)", 12)
-	c.Rule("R08b", "nested scanners: a sub-Scanner is initialised with s.input[s.pos:] and s.addPos(sub.total) is passed on every nil-error return path", 6)
-	c.Rule("R08c", "Stmt.Pos is produced only in Scanner.emit as total-len(text) (other Stmt literals copy an existing Pos or use 0); the statement scanner and the lint report index the same string (string(f.Bytes()))", 4)
-	c.Rule("R08d", "advance/anchor agreement: addPos(len(M)-K) is dominated by a match of M anchored at s.input[s.pos-K:] (HasPrefix / FindString / EqualFold at pos==K) in the same function", 7)
+	c.Rule("R08a", "every store to Scanner.pos / Scanner.total / Scanner.input has one of the shapes that preserve total == len(src)-len(input)+pos (addPos, pick save/restore, input=input[pos:]+pos=0, skipSpaces, init)", 8)
+	c.Rule("R08b", "nested scanners: a sub-Scanner is initialised with s.input[s.pos:] and s.addPos(sub.total) is passed on every nil-error return path", 3)
+	c.Rule("R08c", "Stmt.Pos is produced only in Scanner.emit as total-len(text) (other Stmt literals copy an existing Pos or use 0); the statement scanner and the lint report index the same string (string(f.Bytes()))", 3)
+	c.Rule("R08d", "advance/anchor agreement: addPos(len(M)-K) is dominated by a match of M anchored at s.input[s.pos-K:] (HasPrefix / FindString / EqualFold at pos==K) in the same function", 3)
 
 	c.Rule("R08e", "whitespace-class agreement: the class skipSpaces removes in front of a statement (and counts into total) contains the class emit strips from Stmt.Text, so Pos = total-len(text) lands on Text[0]", 1)
 
